@@ -1,6 +1,6 @@
 (* C07/Properties.v — the property theorems, nothing else.  Values of handles are read with
    aread_slot / aread_row on abs_state st (the values behind the addresses and capacities). *)
-From Verif Require Import Common.Base C07.Val C07.Model C07.Proofs C07.Proofs2.
+From Verif Require Import Common.Base C07.Val C07.Model C07.Proofs C07.Proofs2 C07.Harness C07.Proofs3.
 From Coq Require Import Permutation.
 From Verif Require Import Generated.C07PdataMutators C07.Mutators Generated.C07Consts C07.Tie.
 From Coq Require Import String.
@@ -105,6 +105,22 @@ Theorem move_struct_empties_source : forall sc st n h1 p1 h2 p2 st',
 Proof. exact (fun sc st n h1 p1 h2 p2 st' H => a_move_row sc _ n h1 p1 h2 p2 _ (cstep_astep _ _ _ _ _ H)). Qed.
 Print Assumptions move_struct_empties_source.
 
+(* in particular a move from an EMPTY source overrides the destination: it reads empty afterwards (the
+   boundary case that an "if len(src) == 0 { return }" shortcut gets wrong) *)
+Theorem move_from_empty_overrides_destination : forall sc st h1 p1 j1 h2 p2 j2 st',
+  cstep sc st (OMoveSlot h1 p1 j1 h2 p2 j2) = (st', 0) ->
+  aread_slot (abs_state st) h1 p1 j1 = Some (VS []) ->
+  aread_slot (abs_state st') h2 p2 j2 = Some (VS []).
+Proof.
+  exact (fun sc st h1 p1 j1 h2 p2 j2 st' H E =>
+    match a_move_slot sc _ h1 p1 j1 h2 p2 j2 _ (cstep_astep _ _ _ _ _ H) with
+    | ex_intro _ s (conj A (conj B _)) =>
+        eq_ind_r (fun x => aread_slot (abs_state st') h2 p2 j2 = x) B
+                 (eq_sym (eq_trans (eq_sym A) E))
+    end).
+Qed.
+Print Assumptions move_from_empty_overrides_destination.
+
 Theorem moved_is_empty : forall l t z, vmoved (VS l) = VS [] /\ vmoved (VI t z) = VI 0 0 /\ vmoved (VP z) = VP 0.
 Proof. exact (fun l t z => conj eq_refl (conj eq_refl eq_refl)). Qed.
 Print Assumptions moved_is_empty.
@@ -191,3 +207,37 @@ Theorem tie_method_sets :
   methodset_ok "pmetric" "HistogramDataPoint" methods_HistogramDataPoint = true.
 Proof. exact methodsets_tie_l. Qed.
 Print Assumptions tie_method_sets.
+
+(* FAILING-INPUT SEARCH: the boolean checker that the driver runs over every observed case (program + what the
+   implementation answered) is exactly "the observation conforms to the pure semantics" - same result code at every
+   step, every value read back equal to the value of the pure interpreter, in which the clauses above are definitions *)
+Theorem spec_ok_sound : forall c, spec_ok c = true <-> Conforms [] (fst c) (snd c).
+Proof. exact spec_ok_sound_l. Qed.
+Print Assumptions spec_ok_sound.
+
+(* HISTORIES.  "later mutation of either side, or of any other value, NEVER changes the other": for every later program in
+   which no step writes handle h (the source after a copy, the copy while the source is mutated, any bystander), h keeps
+   its value - unbounded histories, every schema, every oracle *)
+Theorem independent_forever : forall sc p st h, nth_error (s_hs st) h <> None ->
+  Forall (fun o => ~ writes o h) p -> row_of (fst (run_c sc st p)) h = row_of st h.
+Proof. exact independent_run. Qed.
+Print Assumptions independent_forever.
+
+(* ... and inside ONE payload: an update at path p2 is invisible at every path p1 that diverges from it *)
+Theorem independent_within_handle : forall p1 p2 r f r', diverge p1 p2 = true -> cupd r p2 f = Some r' -> cget r' p1 = cget r p1.
+Proof. exact cget_cupd_diverge. Qed.
+Print Assumptions independent_within_handle.
+
+(* "once a payload is marked read-only every mutator ... without changing ANYTHING": after the mark no program at all
+   changes the value of that handle, and it stays read-only *)
+Theorem readonly_value_forever : forall sc p st h, ro st h = true ->
+  row_of (fst (run_c sc st p)) h = row_of st h /\ ro (fst (run_c sc st p)) h = true.
+Proof. exact readonly_run. Qed.
+Print Assumptions readonly_value_forever.
+
+(* "while all readers keep working": values are read by total functions of the state (row_of, aread_slot, aread_row) that do not look at
+   the flag, and marking read-only changes no value of any handle *)
+Theorem mark_readonly_changes_no_value : forall sc st h h', nth_error (s_hs st) h' <> None ->
+  row_of (fst (cstep sc st (OReadOnly h))) h' = row_of st h'.
+Proof. exact mark_readonly_keeps_values. Qed.
+Print Assumptions mark_readonly_changes_no_value.
